@@ -146,6 +146,19 @@ func checkC14(c *mc.Ctx) {
 			}
 		}
 	}
+	if c.Thorough() {
+		nt := int64(len(firsts)) * int64(len(firsts)) * int64(len(firsts))
+		done := mc.ParFor(nt, c.OverBudget, func(i int64) {
+			n := int64(len(firsts))
+			ds := []*astits.Descriptor{firsts[i%n], firsts[i/n%n], firsts[i/n/n]}
+			if len(ref.DescLoop(ds)) < 4000 {
+				c14Decode(c, ds, "triple")
+				c14Encode(c, ds, int(i%3), "triple")
+			}
+		})
+		c.Ev.AddScenario(mc.Scenario{Name: "all ordered triples of tag families", SpaceSize: nt, Executed: done, Exhaustive: done == nt})
+		c.Ev.DistinctAdd(done)
+	}
 	c.Ev.AddScenario(mc.Scenario{Name: "mixed loops", SpaceSize: np*2 + 1, Executed: np*2 + 1, Exhaustive: true, Bound: "empty loop, all ordered pairs of the 26 tag families, one triple per pair"})
 	c.Ev.DistinctAdd(np * 2)
 	// long loops: the 12-bit loop length over its whole range (every single-bit value and the
